@@ -133,7 +133,10 @@ pub fn replay(args: &Args, s: &mut Summary) {
         }
         // the witness schedule of the model, plus seeded other schedules of the same bytes
         let mut scheds: Vec<(Vec<usize>, usize)> = vec![(sched.clone(), 1)];
-        if fault.is_none() {
+        if prop == "C10" {
+            // text encoding is not about delivery: one plain chunk (delivery is C08's, interruptions C08/C09's)
+            scheds = vec![(vec![], file.len().max(1))];
+        } else if fault.is_none() {
             scheds.push((vec![], file.len().max(1)));
             for _ in 0..3 {
                 let n = rng.below(10);
